@@ -236,7 +236,11 @@ def run_case(case):
             await ctx.tick()
 
     # the crossbar twin is part of the design and is elaborated before the monitored decoder
-    simulate(Top({"xbar": xbar, "dec": dec} if xbar is not None else {"dec": dec}), bench, mon)
+    top = Top({"xbar": xbar, "dec": dec} if xbar is not None else {"dec": dec})
+    if rng.random() < 0.2:
+        top.unclocked = ("dec", "xbar")      # the decoder is purely combinational
+        mon.count("decoder_in_a_stopped_clock_domain")
+    simulate(top, bench, mon)
     mon.count("designs_with_crossbar_twin", int(xbar is not None))
     mon.count("cycles", mon.cycle + 1)
     mon.count("subordinates_given_as_component_ports", port_subs)
